@@ -107,7 +107,7 @@ def run_pipeline(prop, fam, tier, seed, work, jh, specdir, stats):
                     g.write(json.dumps(c) + "\n")
     trace = os.path.join(work, "trace.ndjson")
     t0 = time.time()
-    replay(jh, cases, trace, timeout_s=fam.get("case_timeout", 3))
+    replay(jh, cases, trace, timeout_s=fam.get("case_timeout", 5))
     stats["replay_s"] = round(time.time() - t0, 1)
     t0 = time.time()
     verdicts, gen, dist = validate(specdir, trace, timeout=fam.get("tlc_timeout", 3000), module=fam.get("trace_module", "TraceEval"), by_ev=fam.get("trace_by_ev"))
@@ -255,7 +255,7 @@ def confirm(prop, fam, work, jh, specdir, evs, failing, cases_path=None):
             c.pop("exp", None)
             f.write(json.dumps(c) + "\n")
     trace = os.path.join(cdir, "trace.ndjson")
-    replay(jh, cases, trace, timeout_s=fam.get("case_timeout", 3) * 3, jobs=8)
+    replay(jh, cases, trace, timeout_s=fam.get("case_timeout", 5) * 3, jobs=8)
     verdicts, _, _ = validate(specdir, trace, workers=8, module=fam.get("trace_module", "TraceEval"), by_ev=fam.get("trace_by_ev"))
     return verdicts, load_trace(trace)
 
@@ -455,6 +455,7 @@ def c06_main(prop, tier, seed, a):
             "rule": "schedule replay: every interleaving TLC enumerates for the configured call trees is forced on the real code (each on private and on shared compiled expressions) - distinct = goroutine outcomes recorded; free-running: distinct (goroutine, program, outcome) records, each validated against the sequential semantics",
             "exhaustive": True,
             "binding_selftest": stats.get("binding_selftest"),
+            "transient_timeouts_not_reproduced": stats.get("transient_timeouts", 0),
             "design_model_runs": stats["m_runs"], "schedules_replayed": nsched, "protocol_events_validated": len(cev), "goroutine_outcomes_validated": len(eevs),
             "free_running": {"goroutine_counts": cfgc["goroutines"], "duration_each": cfgc["dur"], "evaluations": total_evals, "records_validated": conc_recs, "race_reports": len(race_reports)},
         }
@@ -550,6 +551,11 @@ def main(argv):
                     else:
                         # not a verdict: reported as an infrastructure failure unless the run also has
                         # disagreements that do reproduce (then those are reported, and this one is logged)
+                        if evs[i].get("out", {}).get("o") in ("timeout", "crash"):
+                            # a wall-clock limit hit once and never again under a three times longer limit: machine load, not the code
+                            log("   case %d (%s): %s in the first run, not in any of the fresh-process runs; taken as machine load" % (i, src_of(evs[i])[:80], evs[i]["out"]["o"]))
+                            stats["transient_timeouts"] = stats.get("transient_timeouts", 0) + 1
+                            continue
                         unreproduced.append("case %d (%s): %s -> %s" % (i, src_of(evs[i]), mine[i], v2))
                         continue
                 else:
